@@ -3,12 +3,26 @@ package main
 // Registry of harnesses per property.
 
 var checks = map[string][]HarnessSpec{
+	"C02": {
+		{Name: "verifC02Honest", Pkg: ".", Labels: []string{"accepted"}},
+		{Name: "verifC02Flip", Pkg: ".", Labels: []string{"ran"}},
+		{Name: "verifC02Subst", Pkg: ".", Labels: []string{"ran"}},
+	},
+	"C03": {
+		{Name: "verifC03Reconstruct", Pkg: ".", Labels: []string{"accepted", "checked"}},
+	},
+	"C04": {
+		{Name: "verifC04Rules", Pkg: ".", Labels: []string{"ran"}},
+	},
 	"C08": {
 		{Name: "verifC08Raw", Pkg: ".", Labels: []string{"newconn-ok", "newconn-error", "reads-done"}},
 		{Name: "verifC08Ext", Pkg: ".", Labels: []string{"newconn-ok", "newconn-error"}},
 		{Name: "verifC08ReadArmed", Pkg: ".", Labels: []string{"armed"}},
 		{Name: "verifC08WriteArmed", Pkg: ".", Labels: []string{"writes-done"}},
 		{Name: "verifC08AroundECH", Pkg: ".", Labels: []string{"newconn-ok", "newconn-error"}},
+	},
+	"C09": {
+		{Name: "verifC09KeySets", Pkg: ".", Labels: []string{"ran", "accepted", "passthrough"}},
 	},
 	"C11": {
 		{Name: "verifC11Encode", Pkg: ".", Labels: []string{"roundtrip"}},
